@@ -88,7 +88,10 @@ def run(ctx):
                     return "error kind %s, expected %s" % (r[1], kind)
                 return None
             rows = [Row([("is", c, 1)], ok, name="Some"), Row([("is", c, 0)], err, name="None")]
-            _cmp(ctx, "DLG", cfg, name, b, paths, rows, {table.strip_gargs(c): [0, 1]})
+            # strip/find can only succeed when the (normalised) pattern is no longer than the remainder (C04/C05 tables)
+            lp = ("len", call(S + "pattern::PatternNorm::as_str", ("ref", call(S + "pattern::PatternNorm::new", ARG))))
+            _cmp(ctx, "DLG", cfg, name, b, paths, rows, {table.strip_gargs(c): [0, 1]},
+                 constraints=[table.found_fits(table.strip_gargs(c), ("len", old_str), lp)])
 
         # ---------------- trims: total functions ---------------------------------
         def trims(name, accepted):
@@ -279,9 +282,9 @@ def run(ctx):
     ctx.floor("TAB-BOOL", 1)
 
 
-def _cmp(ctx, rule, cfg, name, b, paths, rows, vdom):
+def _cmp(ctx, rule, cfg, name, b, paths, rows, vdom, constraints=()):
     try:
-        mism, n, dec = table.compare(paths, rows, variant_domain=vdom)
+        mism, n, dec = table.compare(paths, rows, variant_domain=vdom, constraints=list(constraints))
     except table.Undecided as e:
         ctx.violation(rule, "%s|%s" % (cfg, name), "table undecided: %s" % e, b.file())
         return
